@@ -350,6 +350,45 @@ def transform_repo(kind: str, repo_root: str, dst: str):
       f.write(new)
 
 
+def _one_kind(args):
+  kind, prop, repo_root = args
+  from fjsa import canon
+  from fjsa.cli import run_property
+  from fjsa import report
+  scratch = tempfile.mkdtemp(prefix='fjsa-neutral-', dir=_scratch_base())
+  try:
+    lvl = canon.LEVEL
+    try:
+      transform_repo(kind, repo_root, scratch)
+    finally:
+      canon.LEVEL = lvl
+    check, _ = run_property(prop, 'quick', scratch)
+    known = report.load_known_findings()
+    viol = [o for o in check.obs if o.status == 'violation' and not o.advisory and not any(report.finding_matches(e, prop, o) for e in known)]
+    inc = [o for o in check.obs if o.status == 'inconclusive']
+    if viol:
+      return kind, 'false-alarm', viol[0].brief()[:200]
+    if inc or check.errors:
+      return kind, 'false-inconclusive', (check.errors + [o.brief() for o in inc])[0][:200]
+    return kind, 'silent', ''
+  except Exception as e:  # pylint: disable=broad-except
+    return kind, 'error', f'{type(e).__name__}: {e}'[:200]
+  finally:
+    shutil.rmtree(scratch, ignore_errors=True)
+
+
+def run_for_property(prop: str, repo_root: str, jobs: int = 16):
+  """All whole-repo neutral transformations against one property (used by the thorough tier)."""
+  import concurrent.futures
+  tasks = [(k, prop, repo_root) for k in KINDS]
+  try:
+    with concurrent.futures.ProcessPoolExecutor(max_workers=min(jobs, len(tasks))) as ex:
+      res = list(ex.map(_one_kind, tasks))
+  except Exception:  # pylint: disable=broad-except
+    res = [_one_kind(t) for t in tasks]
+  return res
+
+
 def main():
   kind = sys.argv[1] if len(sys.argv) > 1 else 'reformat'
   props = sys.argv[2:] or [f'C{i:02d}' for i in range(1, 21)]
